@@ -1275,22 +1275,36 @@ func runValSlice(c *core.Ctx) {
 	} else {
 		// the address validator applies the kind and pubkey validators to the parts
 		kindOK, pkOK := false, false
-		for _, ci := range calls(av) {
-			if call, ok := ci.(*ssa.Call); ok {
-				if sc := an.StaticCallee(&call.Call); sc != nil {
-					if evVal["Kind"] != nil && sameFunc(sc, evVal["Kind"]) {
-						if okf, _ := impliesFalse(c, av, call); okf {
-							kindOK = true
-						}
-					}
-					if evVal["Pubkey"] != nil && sameFunc(sc, evVal["Pubkey"]) {
-						if okf, _ := impliesFalse(c, av, call); okf {
-							pkOK = true
-						}
+		// (the two validators may be applied in a method of a small address value the validator
+		// parses the string into: `addr, ok := parseEventAddress(s); return ok && addr.valid()` —
+		// then their refusal must make that method refuse, and its refusal the validator)
+		an.Region(av, nil, func(o an.Occ) {
+			call, ok := o.In.(*ssa.Call)
+			if !ok {
+				return
+			}
+			sc := an.StaticCallee(&call.Call)
+			if sc == nil {
+				return
+			}
+			forces := func() bool {
+				if okf, _ := impliesFalse(c, call.Parent(), call); !okf {
+					return false
+				}
+				for _, site := range o.Chain {
+					if okf, _ := impliesFalse(c, site.Parent(), site); !okf {
+						return false
 					}
 				}
+				return true
 			}
-		}
+			if evVal["Kind"] != nil && sameFunc(sc, evVal["Kind"]) && forces() {
+				kindOK = true
+			}
+			if evVal["Pubkey"] != nil && sameFunc(sc, evVal["Pubkey"]) && forces() {
+				pkOK = true
+			}
+		})
 		if !kindOK {
 			// the kind part checked in place: its accepted range must be the event kind's
 			subj := ""
@@ -1309,11 +1323,13 @@ func runValSlice(c *core.Ctx) {
 		// the kind part is read as a decimal integer wide enough for every kind: a 16-bit signed
 		// parse refuses 32768…65535 before the kind validator is asked
 		parseOK, parseWhy := true, ""
-		for _, ci := range calls(av) {
-			call, ok := ci.(*ssa.Call)
-			if !ok {
-				continue
+		var avCalls []*ssa.Call
+		an.Region(av, nil, func(o an.Occ) {
+			if call, ok := o.In.(*ssa.Call); ok {
+				avCalls = append(avCalls, call)
 			}
+		})
+		for _, call := range avCalls {
 			switch an.CalleeName(&call.Call) {
 			case "strconv.ParseInt", "strconv.ParseUint":
 				base, okB := an.ConstInt(call.Call.Args[1])
